@@ -456,7 +456,9 @@ fn check_value(
             );
         }
     }
-    if rep.get("values") % 40_000 == 1 {
+    // a handful of samples for the evidence: the first value seen and every 40 000th
+    static FIRST: std::sync::atomic::AtomicBool = std::sync::atomic::AtomicBool::new(true);
+    if FIRST.swap(false, std::sync::atomic::Ordering::Relaxed) || rep.get("values") % 40_000 == 1 {
         rep.sample(json!({"table": sname, "value": show(value), "canonical": show(&got.0), "binders": format!("{:?}", got.1)}));
     }
 }
